@@ -3,8 +3,8 @@ from kani import Harness
 
 PROPERTY = {
     "title": "a request not marked idempotent is never re-sent after it may have been applied",
-    "level": "proof",
-    "level_text": "Deductive proof over the full domain (every RequestAttemptError/DbError variant with arbitrary field values incl. strings, every session state, idempotence flag and consistency): Verus proves on the extracted real decide_should_retry of the Default, DowngradingConsistency and Fallthrough sessions that a non-idempotent request is retried only after Unavailable / IsBootstrapping / UnableToAllocStreamId / ReadTimeout, that IgnoreWriteError needs idempotence, that the default policy never retries at serial consistency, and that same-target retries are gated by one-shot flags; lemmas over arbitrary failure histories bound same-target retries by 2 (Default) / 1 (Downgrading) / 0 (Fallthrough).",
+    "level": "other",
+    "level_text": "Mixed: (bounded) a Kani harness shows on 3 consecutive uses that the execution loop's accessor ExecuteRequestContext::retry_session keeps ONE session per request context, which is what the history lemmas below assume; (proof, unbounded) deductive proof over the full domain (every RequestAttemptError/DbError variant with arbitrary field values incl. strings, every session state, idempotence flag and consistency): Verus proves on the extracted real decide_should_retry of the Default, DowngradingConsistency and Fallthrough sessions that a non-idempotent request is retried only after Unavailable / IsBootstrapping / UnableToAllocStreamId / ReadTimeout, that IgnoreWriteError needs idempotence, that the default policy never retries at serial consistency, and that same-target retries are gated by one-shot flags; lemmas over arbitrary failure histories bound same-target retries by 2 (Default) / 1 (Downgrading) / 0 (Fallthrough).",
     "level_note": "Trusted: Verus/Z3; payload types of the error enums are opaque (never inspected by the policies); derive(PartialEq) on WriteType/Consistency is structural equality. Bounded (not counted as proved): the Kani harness on ExecuteRequestContext::retry_session (3 uses). Not covered: the rest of the async execution loop (client/execution.rs) sending exactly the attempts the policy decided, and the plan-length part of the attempt bound (needs Session/Connection; no function-level contract within reach).",
     "technique": "contract-based deductive verification: Verus ensures-clauses taken from the property text on extracted functions + inductive lemmas over decision histories",
     "verus": [
